@@ -61,6 +61,22 @@ def gen_lines(rnd, tier):
             kinds = ("o:F", "o:G", "c:G") if tier == "thorough" else (("o:F", "o:G", "c:G")[(i + 2 * j) % 3],)
             for kd in kinds:
                 L.append("verify|%s|1|0|1:M%s:%s%s%s|0" % (kd[0], si, kd[2], sc, "st"[(i + j) % 2]))
+    # methods bound to something other than the candidate (a classmethod through an instance; a borrowed bound method)
+    for i, si in enumerate(SIGS):
+        for j, sc in enumerate(SIGS):
+            if tier == "thorough" or (i + 3 * j) % 4 == 0:
+                L.append("verify|%s|1|0|1:M%s:K%s|0" % ("oc"[(i + j) % 2] if tier != "thorough" else "o", si, sc))
+                L.append("verify|o|1|0|1:M%s:L%s|0" % (si, sc))
+                if tier == "thorough":
+                    L.append("verify|c|1|0|1:M%s:K%s|0" % (si, sc))
+    # diamonds: the top of the diamond declares the method with ANOTHER signature, the second branch re-declares it
+    for i, si in enumerate(SIGS):
+        for j, sa in enumerate(SIGS):
+            if si != sa and (tier == "thorough" or (i + 5 * j) % 8 == 0):
+                sc = (si, sa)[(i + j) % 2]            # the implementation follows the nearer / the farther declaration
+                L.append("verifyd|%s|1|0|1:M%s:G%s|0|M%s" % ("oc"[(i // 2 + j) % 2], si, sc, sa))
+        L.append("verifyd|o|1|0|1:M%s:G%s|0|A" % (si, si))
+        L.append("verifyd|o|1|0|1:A:N|0|M%s" % si)
     n = {"quick": 5000, "thorough": 40000}[tier]
     for _ in range(n):
         vt = rnd.choice("oc")
@@ -89,7 +105,12 @@ def gen_lines(rnd, tier):
                     # names permuted, or unrelated ones (the other scheme)
                     c += rnd.choice(["p", "p", "p", "q", "", "s"]) if inaming else rnd.choice(["", "", "", "p", "q", "s", "t"])
             elems.append("%d%s:%s:%s" % (j, "z" if rnd.random() < 0.15 else "", d, c))
-        if k >= 2 and rnd.random() < 0.3:
+        if rnd.random() < 0.12:
+            # the diamond: the top declares the first `na` members otherwise (another signature, or the other kind of description)
+            na = rnd.randint(1, k)
+            alts = [rnd.choice(["A", "M" + rnd.choice(SIGS), "M" + rnd.choice(SIGS)]) for _ in range(na)]
+            L.append("verifyd|%s|%d|%d|%s|%d|%s" % (vt, rnd.random() < 0.4, rnd.random() < 0.6, ";".join(e.replace("z:", ":") for e in elems), 0, ";".join(alts)))
+        elif k >= 2 and rnd.random() < 0.3:
             # verified, then an ancestor is given a further base that brings the first `nextra` members, then verified again
             nextra = rnd.randint(1, k - 1)
             L.append("verify2|%s|%d|%d|%s|%d|%d" % (vt, rnd.random() < 0.4, rnd.random() < 0.6, ";".join(elems), rnd.randint(0, k - nextra), nextra))
@@ -137,8 +158,11 @@ def to_model(line):
             c = "G" + c[1:]    # the signature left once the (defaulted) self is dropped
         if c[0] in "TJ":
             c = "F" + c[1:]    # a static method (own or inherited): the function as it stands
+        if c[0] in "KL":
+            c = "G" + c[1:]    # bound to the class / to another object: the signature left once the bound first parameter is dropped
         es.append("%s:%s:%s" % (n, d, c))
     f[3] = "1" if f[3] == "2" else f[3]
+    f[0] = "verify"            # (a diamond is, for the model, the nearest declarations)
     return "|".join(f[:4] + [";".join(es)])
 
 
@@ -156,8 +180,9 @@ def count_naming(chk, line):
     for e in line.split("|")[4].split(";"):
         n, d, c = e.split(":")
         if d[0] != "M" or c[0] not in "FGD":
-            if c[0] in "TJ":
-                chk.count("static_method_candidates" if c[0] == "T" else "inherited_static_method_candidates")
+            if c[0] in "TJKL":
+                chk.count({"T": "static_method_candidates", "J": "inherited_static_method_candidates", "K": "classmethod_candidates",
+                           "L": "borrowed_bound_method_candidates"}[c[0]])
             continue
         if c[-1] in "st":
             chk.count("implementations_with_positional_only_parameters")
